@@ -94,6 +94,29 @@ done:
 	return out;
 }
 
+// calendar-based verification against an extender that answers with an error status: the verdict is inconclusive and carries a
+// status message (the only results that have one)
+static std::string op_verify_calendar_ext_error(Env &e) {
+	std::string out; int res;
+	KSI_VerificationContext vc; KSI_PolicyVerificationResult *pr = nullptr;
+	res = KSI_VerificationContext_init(&vc, e.ctx);
+	if (res != KSI_OK) return E(res, "vc_init");
+	vc.signature = e.sig;
+	{
+		CallEnv ce; ce.behav = B_STATUS_ERR; ce.subseed = 5;
+		e.bw.arm(ce);
+		res = KSI_SignatureVerifier_verify(KSI_VERIFICATION_POLICY_CALENDAR_BASED, &vc, &pr);
+		e.bw.disarm();
+	}
+	if (res != KSI_OK) { out = E(res, "verifier"); goto done; }
+	out = "OK:" + std::to_string((int)pr->finalResult.resultCode) + ":" + std::to_string((int)pr->finalResult.errorCode);
+done:
+	KSI_PolicyVerificationResult_free(pr);
+	vc.signature = NULL;
+	KSI_VerificationContext_clean(&vc);
+	return out;
+}
+
 static std::string op_pdu_parse_aggr(Env &e) {
 	KSI_AggregationPdu *pdu = nullptr;
 	int res = KSI_AggregationPdu_parse(e.ctx, (const unsigned char *)e.aggr_reply.data(), e.aggr_reply.size(), &pdu);
@@ -390,6 +413,7 @@ static std::vector<Case> &catalogue() {
 		{"publications_file_parse_lookup", op_pubfile_parse},
 		// appended later (stored replays address cases by index)
 		{"tree_builder_23_leaves_with_metadata", op_treebuilder_big},
+		{"verify_calendar_based_extender_error_status", op_verify_calendar_ext_error},
 	};
 	return c;
 }
